@@ -298,20 +298,16 @@ EAGER_CONSUMERS = {"list", "tuple", "sum", "sorted", "min", "max", "set", "froze
 LAZY_CONSUMERS = {"all", "any", "next"}
 
 
-def probe_all(r: R, chk, qual: str, rule="PROBE-ALL"):
-    """the numeric probe of the validator reaches every element of the vector: it sits in a loop without `break`, in an
-    eager comprehension, or in a generator / map handed to a consumer that always exhausts it — not to all / any / next,
-    which stop at the first falsy (0 is a legal knot) or truthy element and leave the rest unprobed"""
-    fi = r.prog.func(qual)
-    vec = next((p for p in fi.params if p not in ("self", "cls")), None)
+def _probes_in(fi, vec: str):
+    """(exhaustive, lazy) numeric probes over the parameter / local `vec` in one function"""
+    from .common import expand_locals
+
     parent = {}
     for n in ast.walk(fi.node):
         for c in ast.iter_child_nodes(n):
             parent[id(c)] = n
 
     def over_vector(it) -> bool:
-        from .common import expand_locals
-
         it = expand_locals(fi, it)
         return any(isinstance(x, ast.Name) and x.id == vec for x in ast.walk(it))
 
@@ -359,9 +355,41 @@ def probe_all(r: R, chk, qual: str, rule="PROBE-ALL"):
             exhaustive.append((c, "loop over the mapped values"))
         elif isinstance(user, ast.Starred) or isinstance(user, (ast.Tuple, ast.List)):
             exhaustive.append((c, "unpacked"))
+    return exhaustive, lazy
+
+
+def probe_all(r: R, chk, qual: str, rule="PROBE-ALL"):
+    """the numeric probe of the validator reaches every element of the vector: it sits in a loop without `break`, in an
+    eager comprehension, or in a generator / map handed to a consumer that always exhausts it — not to all / any / next,
+    which stop at the first falsy (0 is a legal knot) or truthy element and leave the rest unprobed.  The probe may sit in a
+    private helper that is handed the vector."""
+    fi = r.prog.func(qual)
+    vec = next((p for p in fi.params if p not in ("self", "cls")), None)
+
+    def fname(c):
+        return c.func.id if isinstance(c.func, ast.Name) else c.func.attr if isinstance(c.func, ast.Attribute) else ""
+
+    exhaustive, lazy = _probes_in(fi, vec)
+    where = fi
+    if not exhaustive and not lazy:
+        # follow the resolved calls that receive the vector (one level)
+        ctx = r.root(qual)
+        for cr in ctx.calls:
+            node = cr.node
+            if not isinstance(node, ast.Call):
+                continue
+            for f in cr.callees:
+                if f.module == "__classes__" or f.qual == qual:
+                    continue
+                fparams = [p for p in f.params if p not in ("self", "cls")]
+                for k, a in enumerate(node.args):
+                    if isinstance(a, ast.Name) and a.id == vec and k < len(fparams):
+                        e2, l2 = _probes_in(f, fparams[k])
+                        if e2 or l2:
+                            exhaustive, lazy, where = exhaustive + e2, lazy + l2, f
     if not exhaustive and not lazy:
         chk.floor(rule, f"numeric probes of the elements in {qual}", 0, 1)
     ok = bool(exhaustive)
-    chk.ob(rule, f"{qual}: `float(...)` is tried on every element of `{vec}`", ok, loc=f"{fi.module}.py:{(exhaustive or lazy)[0][0].lineno}",
-           detail="" if ok else f"{qual}: the only numeric probe is `{seg(lazy[0][1], 60)}`: `{fname(lazy[0][1])}` stops at the first {'falsy' if fname(lazy[0][1]) == 'all' else 'truthy' if fname(lazy[0][1]) == 'any' else ''} element — a knot 0 (or the first non-zero one) ends the scan and a non-numeric entry behind it is never probed, so it is accepted or fails later with another exception",
+    chk.ob(rule, f"{qual}: `float(...)` is tried on every element of `{vec}`", ok, loc=f"{where.module}.py:{(exhaustive or lazy)[0][0].lineno}",
+           detail="" if ok else f"{where.qual}: the only numeric probe is `{seg(lazy[0][1], 60)}`: `{fname(lazy[0][1])}` stops at the first {'falsy' if fname(lazy[0][1]) == 'all' else 'truthy' if fname(lazy[0][1]) == 'any' else ''} element — a knot 0 (or the first non-zero one) ends the scan and a non-numeric entry behind it is never probed, so it is accepted or fails later with another exception",
            func=qual, construct="numeric probe not exhaustive")
